@@ -209,8 +209,11 @@ struct TreeSpec {
 /// Builds a small tree with a short seeded history; everything is flushed at the end.
 fn build_tree(seed: u64, case: u64, dir: &Path) -> Result<TreeSpec, String> {
     let mut rng = Rng::derive(seed, case ^ 0xC0_22);
-    let uni = Arc::new(Universe::generate(&mut rng, 18, 0, 6));
-    let blob = rng.chance(2, 5);
+    // every other tree is tiny (a handful of keys, short history): its files are covered byte by byte within the
+    // quick budget; the larger ones have more structure (levels, partitions, several blob files) and are sampled
+    let tiny = (case / 1_000_000 + case) % 2 == 1;
+    let uni = Arc::new(if tiny { Universe::generate(&mut rng, 7, 0, 2) } else { Universe::generate(&mut rng, 18, 0, 6) });
+    let blob = rng.chance(2, 5) || (tiny && rng.chance(1, 3));
     let mut cfg = TreeCfg::random(&mut rng, Some(blob));
     // keep files small so that every byte can be covered
     cfg.block_size = vec![*rng.pick(&[64, 256, 1024])];
@@ -219,8 +222,8 @@ fn build_tree(seed: u64, case: u64, dir: &Path) -> Result<TreeSpec, String> {
     }
     let profile = ops::profile("layout").expect("profile");
     let mut p = profile.clone();
-    p.min_ops = 25;
-    p.max_ops = 70;
+    p.min_ops = if tiny { 8 } else { 25 };
+    p.max_ops = if tiny { 22 } else { 70 };
     p.weights[ops::Kind::Reopen as usize] = 0;
     p.weights[ops::Kind::SnapOpen as usize] = 0;
     p.weights[ops::Kind::DropRange as usize] = 1;
@@ -241,7 +244,7 @@ fn build_tree(seed: u64, case: u64, dir: &Path) -> Result<TreeSpec, String> {
     for (i, op) in history.iter().enumerate() {
         // values only moderately large: keep the files enumerable
         let op = match op {
-            Op::Put { k, vlen } => Op::Put { k: *k, vlen: (*vlen).min(300) },
+            Op::Put { k, vlen } => Op::Put { k: *k, vlen: (*vlen).min(if tiny { 90 } else { 300 }) },
             other => other.clone(),
         };
         if let Err(v) = inst.exec(i, &op) {
